@@ -7,8 +7,10 @@
 #   git -C /repo worktree remove --force /tmp/wt-c10c08; rm -rf /verif/.build/alt-* /verif/.alt
 # Prints, per break, the violation keys that appear in addition to the baseline's.
 import sys, os, subprocess, shutil, re, json
-WT='/tmp/wt-c10c08'
-FILES=['amd/emu/computeunit.go','amd/timing/cu/wfdispatcher.go','amd/driver/api.go','amd/driver/context.go','amd/driver/distributor.go','amd/driver/driver.go','amd/driver/internal/devicebuddymemstate.go','amd/driver/internal/memoryallocator.go','amd/driver/internal/devicememstateinterface.go','amd/driver/internal/device.go','amd/kernels/gridbuilder.go']
+WT=os.environ.get('MUT_WT','/tmp/wt-c10c08')  # MUT_WT=<worktree> selects another scratch worktree
+FILES=['amd/emu/computeunit.go','amd/timing/cu/wfdispatcher.go','amd/driver/api.go','amd/driver/context.go','amd/driver/distributor.go','amd/driver/driver.go','amd/driver/internal/devicebuddymemstate.go','amd/driver/internal/memoryallocator.go','amd/driver/internal/devicememstateinterface.go','amd/driver/internal/device.go','amd/kernels/gridbuilder.go','amd/timing/cp/internal/dispatching/partition.go','amd/timing/cp/internal/dispatching/roundrobin.go']
+PART='amd/timing/cp/internal/dispatching/partition.go'
+RR='amd/timing/cp/internal/dispatching/roundrobin.go'
 MA='amd/driver/internal/memoryallocator.go'
 EMU='amd/emu/computeunit.go'
 TIM='amd/timing/cu/wfdispatcher.go'
@@ -55,6 +57,16 @@ MUTS={
  'c08-l2-t6-wg-count-y-floor': (TIM, "		wgCountY := (pkt.GridSizeY + uint32(pkt.WorkgroupSizeY) - 1) /", "		wgCountY := (pkt.GridSizeY + uint32(pkt.WorkgroupSizeY) - 0) /"),
  'c08-l2-t7-v2-written-at-level-1': (TIM, "		if co.EnableVgprWorkItemID() > 1 {", "		if co.EnableVgprWorkItemID() > 0 {"),
  'c08-l2-e7-kernarg-ptr-before-dispatch-ptr-slot': (EMU, "		binary.LittleEndian.PutUint64(wf.SRegFile[SGPRPtr:SGPRPtr+8], pkt.KernargAddress)\n		SGPRPtr += 8", "		binary.LittleEndian.PutUint64(wf.SRegFile[SGPRPtr:SGPRPtr+8], pkt.KernargAddress)\n		SGPRPtr += 4"),
+ # ---- C08 layer 4 (dispatching algorithms on the r9nano timing platform)
+ 'c08-l4-seed-steal-counted-on-thief-partition': (PART, "			a.partitions[wgFromPartition].dispatchedWG++\n", "			a.partitions[i].dispatchedWG++\n"),
+ 'c08-l4-m1-partition-start-uses-floor-size': (PART, "		p.gridBuilder.Skip(i * a.numWGPerPartition)\n", "		p.gridBuilder.Skip(i * (a.numWG / numCU))\n"),
+ 'c08-l4-m2-partition-cursor-one-ahead': (PART, "		p.gridBuilder.Skip(i * a.numWGPerPartition)\n", "		p.gridBuilder.Skip(i*a.numWGPerPartition + 1)\n"),
+ 'c08-l4-m3-partition-takes-one-too-many': (PART, "	if p.dispatchedWG >= a.numWGPerPartition {", "	if p.dispatchedWG > a.numWGPerPartition {"),
+ 'c08-l4-m4-stolen-wg-stays-with-victim': (PART, "			a.currWGs[wgFromPartition] = nil\n", "			a.currWGs[i] = nil\n"),
+ 'c08-l4-m5-steal-reports-own-partition': (PART, "				return a.currWGs[i], i\n", "				return a.currWGs[i], partitionIndex\n"),
+ 'c08-l4-m6-dispatched-count-not-reset': (PART, "	a.numDispatchedWG = 0\n\n	gb := kernels.NewGridBuilder()", "	gb := kernels.NewGridBuilder()"),
+ 'c08-l4-rr1-waiting-wg-replaced': (RR, "	if a.currWG == nil {\n		a.currWG = a.gridBuilder.NextWG()\n	}\n", "	a.currWG = a.gridBuilder.NextWG()\n"),
+ 'c08-l4-rr2-count-not-reset': (RR, "	a.numDispatchedWGs = 0\n	a.gridBuilder.SetKernel(info)", "	a.gridBuilder.SetKernel(info)"),
 }
 HERE=os.path.dirname(os.path.abspath(__file__))
 FIXES=['fix_c10_A_allocator_pid_key_and_free_all_pages.diff','fix_c10_B_removeFreedBuffers.diff','fix_c10_C_buddy_parent_merge_bit.diff','fix_c08_formWavefronts.diff']
